@@ -276,7 +276,9 @@ impl<Error: Send> StreamingSoundData<Error> {
 	#[must_use]
 	pub fn num_frames(&self) -> usize {
 		if let Some((start, end)) = self.slice {
-			end - start
+			// a slice can't extend past the end of the audio, and a slice
+			// that ends before it starts is empty
+			end.min(self.decoder.num_frames()).saturating_sub(start)
 		} else {
 			self.decoder.num_frames()
 		}
